@@ -755,6 +755,9 @@ func (e *Engine) coerceTo(env *Env, v Val, s Sort) *Term {
 		if x.S == SBytes && s == SStr {
 			return mk(SStr, bstrOf(x.T))
 		}
+		if x.S == "Arr" && s == SStr {
+			return mk(SStr, x.T)
+		}
 		if x.S == SStr && s == SBytes {
 			return mk(SBytes, "(mkB false "+x.T+")")
 		}
@@ -1036,6 +1039,8 @@ func (e *Engine) evalCall(env *Env, x *Expr) Val {
 				return mkBV(64, bvLit(0, 64), true)
 			}
 			return mkBV(64, bvLit(uint64(a.Hi-a.Lo), 64), true)
+		case *MapV:
+			return e.mapLen(env.st, a)
 		}
 		unsupported("len(%s)", valString(args[0]))
 	case "str":
@@ -1335,6 +1340,9 @@ func (e *Engine) evalCall(env *Env, x *Expr) Val {
 		return mkBV(64, "("+f+" "+term(0, SInt).T+")", true)
 	}
 	if v, ok := e.tmBuiltin(env, x); ok {
+		return v
+	}
+	if v, ok := e.mapBuiltin(env, x); ok {
 		return v
 	}
 	if x.Name == "inClient" {
